@@ -29,8 +29,10 @@ from lib import Checker, bits_equal, deviations, digest, ulp_diff
 PROPERTY = "C12"
 RULE = ("config axes: model kind [10: AlphaModel alpha prior / alpha fixed, "
         "ExactModel with counting calc_func, 2 spheres + LimitOverlaps "
-        "fraction 0.1/0/1/0.125, MieLens theory parameter, medium-index "
-        "parameter, 2-channel...] x noise source [9] x optics source [4] x "
+        "fraction 0.1/0/1/0.125, 2 spheres sharing one radius prior, MieLens "
+        "theory parameter, medium-index parameter] x noise source [9: model "
+        "scalar / data / both / none / model prior / scalar on 2 channels / "
+        "per-channel on model / on data / on both] x optics source [4] x "
         "prior-kind pattern [12] x data form [4]; all config vectors with <= 2 "
         "deviations from the default.  Parameter vectors: per parameter "
         "{guess, lower, upper, 1 ulp below lower, 1 ulp above upper, "
@@ -124,7 +126,7 @@ def site_alphabet(site, kind):
 # configuration axes
 # ---------------------------------------------------------------------------
 KINDS = ["alpha-prior", "alpha-fixed", "exact", "two-0.1", "two-0", "two-1",
-         "two-0.125", "lens", "medium"]
+         "two-0.125", "two-tied", "lens", "medium"]
 KIND_SITES = {
     "alpha-prior": ["n", "r", "z", "alpha"],
     "alpha-fixed": ["n", "r", "z", "x"],
@@ -133,10 +135,12 @@ KIND_SITES = {
     "two-0": ["r1", "x2", "alpha"],
     "two-1": ["r1", "x2", "alpha"],
     "two-0.125": ["r1", "x2", "alpha"],
+    "two-tied": ["r1", "x2", "alpha"],      # one prior used for both radii
     "lens": ["n", "lens_angle", "alpha"],
     "medium": ["n", "r", "medium_index", "alpha"],
 }
-FRACTION = {"two-0.1": 0.1, "two-0": 0, "two-1": 1, "two-0.125": 0.125}
+FRACTION = {"two-0.1": 0.1, "two-0": 0, "two-1": 1, "two-0.125": 0.125,
+            "two-tied": 0.1}
 NOISES = ["model", "data", "both", "none", "model-prior", "model@2ch",
           "model-ch", "data-ch", "both-ch"]
 OPTICS = ["model", "data", "both", "split"]
@@ -147,7 +151,8 @@ CFG_AXES = {"kind": KINDS, "noise": NOISES, "optics": OPTICS,
             "priors": PATTERNS, "data": DATAS}
 ALL_PATTERNS = ["".join(p) for p in itertools.product("UGB", repeat=4)]
 # quick tier: 2-deviation configurations only over these reduced alphabets
-QUICK_PAIR = {"kind": ["alpha-prior", "exact", "two-0.1", "two-0", "lens"],
+QUICK_PAIR = {"kind": ["alpha-prior", "exact", "two-0.1", "two-0", "two-tied",
+                       "lens"],
               "noise": ["model", "data", "both", "none", "model-ch",
                         "data-ch"],
               "optics": ["model", "data", "both"],
@@ -332,10 +337,11 @@ def build(cfg, shape=(4, 4), subset_pixels=7):
 
     # ---- scatterer / theory with priors -----------------------------------
     c.two = kind.startswith("two")
+    c.tied = kind == "two-tied"
     if c.two:
         scat = Spheres([Sphere(n=1.59, r=site("r1", 0.5),
                                center=(0.0, 0.1, 5.0)),
-                        Sphere(n=1.45, r=0.5,
+                        Sphere(n=1.45, r=site("r1", 0.5) if c.tied else 0.5,
                                center=(site("x2", 1.5), 0.1, 5.0))],
                        warn=False)
         constraints = [LimitOverlaps(FRACTION[kind])]
@@ -453,7 +459,7 @@ def harness_forward(c, vals, detector):
     if c.two:
         scat = Spheres([Sphere(n=1.59, r=g("r1", 0.5),
                                center=(0.0, 0.1, 5.0)),
-                        Sphere(n=1.45, r=0.5,
+                        Sphere(n=1.45, r=g("r1", 0.5) if c.tied else 0.5,
                                center=(g("x2", 1.5), 0.1, 5.0))], warn=False)
     else:
         scat = Sphere(n=g("n", 1.59), r=g("r", 0.5),
@@ -516,7 +522,7 @@ def constraint_ok(c, vals):
     if not c.two:
         return True
     r1 = Fraction(vals.get("r1", 0.5))
-    r2 = Fraction(0.5)
+    r2 = r1 if c.tied else Fraction(0.5)
     dist = abs(Fraction(vals.get("x2", 1.5)))
     overlap = max(Fraction(0), r1 + r2 - dist)
     limit = 2 * min(r1, r2) * Fraction(FRACTION[c.cfg["kind"]])
